@@ -36,43 +36,755 @@ def openValid (S : Schema) : Nat → Nat → List Node → Bool
     canonicalMarks S m && leftOpenValid S a k && rightOpenValid S (b + 1) (n :: rest)
   | _ + 1, _ + 1, _ => false
 
+/-! ### basics of `checkNode` / `checkKids` -/
+
+@[simp] theorem checkKids_nil (S : Schema) : S.checkKids [] = true := by simp [Schema.checkKids]
+@[simp] theorem checkKids_cons (S : Schema) (n : Node) (ns : List Node) :
+    S.checkKids (n :: ns) = (S.checkNode n && S.checkKids ns) := by simp [Schema.checkKids]
+@[simp] theorem checkNode_text (S : Schema) (s : List Nat) (m : Marks) :
+    S.checkNode (.text s m) = canonicalMarks S m := by simp [Schema.checkNode]
+theorem checkNode_leaf (S : Schema) (t : TypeId) (a : Attrs) (m : Marks) :
+    S.checkNode (.leaf t a m) = (canonicalMarks S m && S.validContent t []) := by simp [Schema.checkNode]
+theorem checkNode_elem (S : Schema) (t : TypeId) (a : Attrs) (m : Marks) (k : List Node) :
+    S.checkNode (.elem t a m k) = (S.validContent t k && canonicalMarks S m && S.checkKids k) := by
+  simp [Schema.checkNode]
+
+theorem checkKids_append (S : Schema) (a b : List Node) :
+    S.checkKids (a ++ b) = (S.checkKids a && S.checkKids b) := by
+  induction a with
+  | nil => simp
+  | cons n ns ih => simp [ih, Bool.and_assoc]
+
+theorem checkKids_iff (S : Schema) (l : List Node) : S.checkKids l = true ↔ ∀ n ∈ l, S.checkNode n = true := by
+  induction l with
+  | nil => simp
+  | cons n ns ih => simp [ih]
+
 /-- `valid_content` only looks at the types and marks of the children -/
 theorem validContent_congr (S : Schema) (t : TypeId) (a b : List Node)
     (h : a.map (fun n => (S.tyOf n, n.marks)) = b.map (fun n => (S.tyOf n, n.marks))) :
     S.validContent t a = S.validContent t b := by
-  sorry
+  have h1 : S.types a = S.types b := by
+    have := congrArg (List.map Prod.fst) h
+    simpa [Schema.types, List.map_map, Function.comp_def] using this
+  have h2 : a.map Node.marks = b.map Node.marks := by
+    have := congrArg (List.map Prod.snd) h
+    simpa [List.map_map, Function.comp_def] using this
+  have h3 : ∀ l : List Node, l.all (fun k => (S.nodeType t).allowsMarks k.marks)
+      = (l.map Node.marks).all (fun m => (S.nodeType t).allowsMarks m) := by
+    intro l; rw [List.all_map]; rfl
+  unfold Schema.validContent
+  rw [h1, h3 a, h3 b, h2]
+
+theorem addNode_checkKids (S : Schema) (t : List Node) (c : Node) (ht : S.checkKids t = true)
+    (hc : S.checkNode c = true) : S.checkKids (addNode t c) = true := by
+  unfold addNode
+  split
+  · rename_i s m s' m' h
+    split
+    · have h2 := getLast?_decomp h
+      rw [h2, checkKids_append] at ht
+      simp only [Bool.and_eq_true, checkKids_cons, checkNode_text, checkKids_nil] at ht
+      simp [checkKids_append, ht.1, ht.2.1]
+    · simp [checkKids_append, ht, hc]
+  · simp [checkKids_append, ht, hc]
+
+theorem addNodes_checkKids (S : Schema) (t cs : List Node) (ht : S.checkKids t = true)
+    (hc : S.checkKids cs = true) : S.checkKids (addNodes t cs) = true := by
+  induction cs generalizing t with
+  | nil => simpa [addNodes] using ht
+  | cons c cs ih =>
+    simp only [checkKids_cons, Bool.and_eq_true] at hc
+    simp only [addNodes, List.foldl_cons] at *
+    exact ih _ (addNode_checkKids S t c ht hc.1) hc.2
 
 /-- text merging keeps validity of a child list -/
 theorem fromArray_checkKids (S : Schema) (l : List Node) (h : S.checkKids l = true) :
-    S.checkKids (fromArray l) = true := by
-  sorry
+    S.checkKids (fromArray l) = true :=
+  addNodes_checkKids S [] l (by simp) h
 
 theorem fappend_checkKids (S : Schema) (a b : List Node) (ha : S.checkKids a = true)
     (hb : S.checkKids b = true) : S.checkKids (fappend a b) = true := by
-  sorry
+  unfold fappend
+  cases b with
+  | nil => exact ha
+  | cons c rest =>
+    simp only [checkKids_cons, Bool.and_eq_true] at hb
+    simp only
+    split
+    · simp [hb]
+    · rw [checkKids_append, addNode_checkKids S a c ha hb.1, hb.2]; rfl
+
+/-! ### flat cuts -/
+
+theorem fcutLoop_checkKids_flat (S : Schema) : ∀ (kids : List Node) (f t : Nat) (c : List Node),
+    S.checkKids kids = true → depthAt kids f = 0 → depthAt kids t = 0 →
+    fcutLoop kids f t = .ok c → S.checkKids c = true
+  | [], f, t, c, hk, hf, ht, h => by
+    unfold fcutLoop at h
+    split at h
+    · simp at h
+    · simp at h; subst h; simp
+  | n :: ns, f, t, c, hk, hf, ht, h => by
+    simp only [checkKids_cons, Bool.and_eq_true] at hk
+    unfold fcutLoop at h
+    split at h
+    · simp at h; subst h; simp
+    · rename_i ht0
+      -- depths for the recursive call
+      have hf' : depthAt ns (f - n.size) = 0 := by
+        unfold depthAt at hf
+        split at hf
+        · rename_i h0; subst h0; simp [depthAt_zero]
+        · split at hf
+          · exact hf
+          · rename_i h1 h2
+            have : f - n.size = 0 := by omega
+            rw [this]; exact depthAt_zero ns
+      have ht' : depthAt ns (t - n.size) = 0 := by
+        unfold depthAt at ht
+        rw [if_neg ht0] at ht
+        split at ht
+        · exact ht
+        · have : t - n.size = 0 := by omega
+          rw [this]; exact depthAt_zero ns
+      have ih := fun c' => fcutLoop_checkKids_flat S ns (f - n.size) (t - n.size) c' hk.2 hf' ht'
+      simp only at h
+      split at h
+      · rename_i hlt
+        split at h
+        · rename_i hcond
+          split at h
+          · rename_i s m
+            split at h
+            · rename_i s' hs'
+              split at h
+              · rename_i rest hrest
+                simp at h; subst h
+                have := hk.1
+                simp only [checkNode_text] at this
+                simp [this, ih rest hrest]
+              · simp at h
+            · simp at h
+          · rename_i ty a m
+            split at h
+            · rename_i rest hrest
+              simp at h; subst h
+              simp [hk.1, ih rest hrest]
+            · simp at h
+          · rename_i ty a m kids'
+            exfalso
+            simp only [Node.size_elem] at hlt
+            by_cases hf0 : f = 0
+            · subst hf0
+              simp only [Nat.lt_irrefl, decide_false, Bool.false_or, decide_eq_true_eq, Node.size_elem] at hcond
+              unfold depthAt at ht
+              rw [if_neg ht0, if_neg (by simp only [Node.size_elem]; omega)] at ht
+              simp at ht
+            · unfold depthAt at hf
+              rw [if_neg hf0, if_neg (by simp only [Node.size_elem]; omega)] at hf
+              simp at hf
+        · split at h
+          · rename_i rest hrest
+            simp at h; subst h
+            simp [hk.1, ih rest hrest]
+          · simp at h
+      · exact ih c h
 
 /-- cutting a valid child list at a flat range (both ends at depth 0) gives valid children -/
 theorem fcut_checkKids_flat (S : Schema) (kids c : List Node) (f t : Nat)
     (hk : S.checkKids kids = true) (hf : depthAt kids f = 0) (ht : depthAt kids t = 0)
     (h : fcut kids f t = .ok c) : S.checkKids c = true := by
-  sorry
+  unfold fcut at h
+  split at h
+  · simp at h; subst h; exact hk
+  · split at h
+    · simp at h; subst h; simp
+    · exact fcutLoop_checkKids_flat S kids f t c hk hf ht h
 
-/-- **a slice cut from a valid document is a valid payload** -/
-theorem sliceKids_openValid (S : Schema) (kids : List Node) (f t : Nat) (s : Slice)
-    (hk : S.checkKids kids = true) (h : sliceKids kids f t = .ok s) :
-    openValid S s.openStart s.openEnd s.content = true := by
-  sorry
+/-! ### validity of the part of a child list before / after an offset -/
+
+/-- everything of `L` strictly before offset `f` is valid (nodes cut by `f`: canonical marks) -/
+def prefixValid (S : Schema) : List Node → Nat → Bool
+  | [], _ => true
+  | n :: ns, f =>
+    if f = 0 then true
+    else if n.size ≤ f then S.checkNode n && prefixValid S ns (f - n.size)
+    else match n with
+      | .text _ m => canonicalMarks S m
+      | .leaf .. => true
+      | .elem _ _ m k => canonicalMarks S m && prefixValid S k (f - 1)
+
+/-- everything of `R` after offset `t` is valid (a text node cut by `t`: canonical marks) -/
+def suffixValid (S : Schema) : List Node → Nat → Bool
+  | [], _ => true
+  | n :: ns, t =>
+    if t = 0 then S.checkKids (n :: ns)
+    else if n.size ≤ t then suffixValid S ns (t - n.size)
+    else match n with
+      | .text _ m => canonicalMarks S m && S.checkKids ns
+      | .leaf .. => S.checkKids ns
+      | .elem _ _ _ k => suffixValid S k (t - 1) && S.checkKids ns
+
+theorem prefixValid_of_check (S : Schema) : ∀ (L : List Node) (f : Nat), S.checkKids L = true →
+    prefixValid S L f = true
+  | [], f, h => by simp [prefixValid]
+  | n :: ns, f, h => by
+    simp only [checkKids_cons, Bool.and_eq_true] at h
+    unfold prefixValid
+    split
+    · rfl
+    · split
+      · simp [h.1, prefixValid_of_check S ns _ h.2]
+      · cases n with
+        | text s m => simpa using h.1
+        | leaf t a m => rfl
+        | elem t a m k =>
+          have h1 := h.1
+          simp only [checkNode_elem, Bool.and_eq_true] at h1
+          simp [h1.1.2, prefixValid_of_check S k _ h1.2]
+
+theorem suffixValid_of_check (S : Schema) : ∀ (R : List Node) (t : Nat), S.checkKids R = true →
+    suffixValid S R t = true
+  | [], t, h => by simp [suffixValid]
+  | n :: ns, t, h => by
+    unfold suffixValid
+    split
+    · exact h
+    · simp only [checkKids_cons, Bool.and_eq_true] at h
+      split
+      · exact suffixValid_of_check S ns _ h.2
+      · cases n with
+        | text s m => simpa [h.2] using h.1
+        | leaf t a m => exact h.2
+        | elem t a m k =>
+          have h1 := h.1
+          simp only [checkNode_elem, Bool.and_eq_true] at h1
+          simp [h.2, suffixValid_of_check S k _ h1.2]
+
+/-- what `splitRight` returns, under `suffixValid` -/
+def RSplit.validK (S : Schema) : RSplit → Bool
+  | .flat rest => S.checkKids rest
+  | .deep (.elem _ _ _ k) inner rest => suffixValid S k inner && S.checkKids rest
+  | .deep _ _ rest => S.checkKids rest
+
+theorem splitRight_valid (S : Schema) : ∀ (Rt : List Node) (t : Nat) (r : RSplit),
+    suffixValid S Rt t = true → splitRight Rt t = some r → r.validK S = true
+  | [], 0, r, hv, h => by simp [splitRight] at h; subst h; simp [RSplit.validK]
+  | [], _+1, r, hv, h => by simp [splitRight] at h
+  | n :: ns, t, r, hv, h => by
+    unfold splitRight at h
+    unfold suffixValid at hv
+    split at h
+    · rename_i ht; rw [if_pos ht] at hv
+      simp at h; subst h; simpa [RSplit.validK] using hv
+    · rename_i ht; rw [if_neg ht] at hv
+      split at h
+      · rename_i hle; rw [if_pos hle] at hv
+        exact splitRight_valid S ns _ r hv h
+      · rename_i hle; rw [if_neg hle] at hv
+        cases n with
+        | text s m =>
+          simp only at h
+          split at h
+          · simp at h; subst h
+            simpa [RSplit.validK] using hv
+          · simp at h
+        | leaf ty a m => simp at h
+        | elem ty a m kids =>
+          simp at h; subst h
+          simpa [RSplit.validK] using hv
+
+theorem RSplit.rest_valid {S : Schema} {rs : RSplit} (h : rs.validK S = true) :
+    S.checkKids rs.rest = true := by
+  cases rs with
+  | flat r => simpa [RSplit.validK, RSplit.rest] using h
+  | deep c i r =>
+    cases c <;> simp only [RSplit.validK, Bool.and_eq_true] at h <;>
+      first | exact h | exact h.2
+
+theorem close_valid {S : Schema} {ty a m} {pieces : List Node} {c : Node}
+    (hm : canonicalMarks S m = true) (hp : S.checkKids pieces = true)
+    (h : S.close ty a m (fromArray pieces) = .ok c) : S.checkNode c = true := by
+  have hc := close_ok h
+  unfold Schema.close at h
+  split at h
+  · rename_i hv
+    rw [hc, checkNode_elem, hv, hm, fromArray_checkKids S _ hp]; rfl
+  · simp at h
+
+theorem twoWay_valid_gen (S : Schema) : ∀ (L : List Node) (f : Nat) (Rt : List Node) (t : Nat) (X : List Node),
+    prefixValid S L f = true → suffixValid S Rt t = true → twoWay S L f Rt t = .ok X →
+    S.checkKids X = true
+  | [], f, Rt, t, X, hL, hR, h => by
+    unfold twoWay at h
+    split at h
+    · split at h
+      · rename_i rest hs; simp at h; subst h
+        simpa [RSplit.validK] using splitRight_valid S _ _ _ hR hs
+      · simp at h
+      · simp at h
+    · simp at h
+  | n :: ns, f, Rt, t, X, hL, hR, h => by
+    unfold twoWay at h
+    unfold prefixValid at hL
+    split at h
+    · split at h
+      · rename_i rest hs; simp at h; subst h
+        simpa [RSplit.validK] using splitRight_valid S _ _ _ hR hs
+      · simp at h
+      · simp at h
+    · rename_i hf; rw [if_neg hf] at hL
+      split at h
+      · rename_i hle; rw [if_pos hle] at hL
+        simp only [Bool.and_eq_true] at hL
+        split at h
+        · rename_i r hr
+          simp at h; subst h
+          simp [hL.1, twoWay_valid_gen S ns _ Rt t r hL.2 hR hr]
+        · simp at h
+      · rename_i hle; rw [if_neg hle] at hL
+        cases n with
+        | text s m =>
+          simp only at h hL
+          split at h
+          · simp at h
+          · split at h
+            · rename_i rest hs; simp at h; subst h
+              have hr : S.checkKids rest = true := by
+                simpa [RSplit.validK] using splitRight_valid S _ _ _ hR hs
+              simp [hr, hL]
+            · simp at h
+            · simp at h
+        | leaf ty a m => simp at h
+        | elem ty a m kids =>
+          simp only [Bool.and_eq_true] at h hL
+          split at h
+          · rename_i ty' a' m' kids' inner rest hs
+            split at h
+            · split at h
+              · rename_i innerRes hin
+                split at h
+                · rename_i c hc
+                  simp at h; subst h
+                  have hr := splitRight_valid S _ _ _ hR hs
+                  simp only [RSplit.validK, Bool.and_eq_true] at hr
+                  have ih := twoWay_valid_gen S kids (f - 1) kids' inner innerRes hL.2 hr.1 hin
+                  simp [close_valid hL.1 ih hc, hr.2]
+                · simp at h
+              · simp at h
+            · simp at h
+          · simp at h
+          · simp at h
 
 theorem twoWay_valid (S : Schema) (L : List Node) (f : Nat) (Rt : List Node) (t : Nat) (X : List Node)
     (hL : S.checkKids L = true) (hR : S.checkKids Rt = true)
-    (h : twoWay S L f Rt t = .ok X) : S.checkKids X = true := by
-  sorry
+    (h : twoWay S L f Rt t = .ok X) : S.checkKids X = true :=
+  twoWay_valid_gen S L f Rt t X (prefixValid_of_check S L f hL) (suffixValid_of_check S Rt t hR) h
+
+/-! ### open validity: sizes, relation to prefix/suffix validity -/
+
+theorem leftOpenValid_size (S : Schema) : ∀ (a : Nat) (k : List Node), leftOpenValid S a k = true →
+    2 * a ≤ fsize k
+  | 0, _, _ => by omega
+  | a + 1, [], h => by simp [leftOpenValid] at h
+  | a + 1, .text .. :: _, h => by simp [leftOpenValid] at h
+  | a + 1, .leaf .. :: _, h => by simp [leftOpenValid] at h
+  | a + 1, .elem _ _ m k :: rest, h => by
+    simp only [leftOpenValid, Bool.and_eq_true] at h
+    have := leftOpenValid_size S a k h.1.2
+    simp; omega
+
+theorem rightOpenValid_size (S : Schema) : ∀ (b : Nat) (L : List Node), rightOpenValid S b L = true →
+    2 * b ≤ fsize L
+  | 0, _, _ => by omega
+  | b + 1, [], h => by simp [rightOpenValid] at h
+  | b + 1, [.text ..], h => by simp [rightOpenValid] at h
+  | b + 1, [.leaf ..], h => by simp [rightOpenValid] at h
+  | b + 1, [.elem _ _ m k], h => by
+    simp only [rightOpenValid, Bool.and_eq_true] at h
+    have := rightOpenValid_size S b k h.2
+    simp; omega
+  | b + 1, n :: n' :: rest, h => by
+    simp only [rightOpenValid, Bool.and_eq_true] at h
+    have := rightOpenValid_size S (b + 1) (n' :: rest) h.2
+    simp only [fsize_cons] at *; omega
+
+theorem leftOpenValid_suffix (S : Schema) : ∀ (a : Nat) (R : List Node), leftOpenValid S a R = true →
+    suffixValid S R a = true
+  | 0, R, h => by
+    simp only [leftOpenValid] at h
+    cases R with
+    | nil => simp [suffixValid]
+    | cons n ns => unfold suffixValid; simpa using h
+  | a + 1, [], h => by simp [leftOpenValid] at h
+  | a + 1, .text .. :: _, h => by simp [leftOpenValid] at h
+  | a + 1, .leaf .. :: _, h => by simp [leftOpenValid] at h
+  | a + 1, .elem _ _ m k :: rest, h => by
+    simp only [leftOpenValid, Bool.and_eq_true] at h
+    have hs := leftOpenValid_size S a k h.1.2
+    unfold suffixValid
+    rw [if_neg (by omega), if_neg (by simp only [Node.size_elem]; omega)]
+    simp [leftOpenValid_suffix S a k h.1.2, h.2]
+
+theorem rightOpenValid_prefix (S : Schema) : ∀ (b : Nat) (L : List Node), rightOpenValid S b L = true →
+    prefixValid S L (fsize L - b) = true
+  | 0, L, h => by
+    simp only [rightOpenValid] at h
+    exact prefixValid_of_check S L _ h
+  | b + 1, [], h => by simp [rightOpenValid] at h
+  | b + 1, [.text ..], h => by simp [rightOpenValid] at h
+  | b + 1, [.leaf ..], h => by simp [rightOpenValid] at h
+  | b + 1, [.elem _ _ m k], h => by
+    simp only [rightOpenValid, Bool.and_eq_true] at h
+    have hs := rightOpenValid_size S b k h.2
+    have ih := rightOpenValid_prefix S b k h.2
+    unfold prefixValid
+    simp only [fsize_cons, fsize_nil, Node.size_elem]
+    rw [if_neg (by omega), if_neg (by omega)]
+    have : 2 + fsize k + 0 - (b + 1) - 1 = fsize k - b := by omega
+    simp only [this, h.1, ih, Bool.and_self]
+  | b + 1, n :: n' :: rest, h => by
+    simp only [rightOpenValid, Bool.and_eq_true] at h
+    have hs := rightOpenValid_size S (b + 1) (n' :: rest) h.2
+    have ih := rightOpenValid_prefix S (b + 1) (n' :: rest) h.2
+    unfold prefixValid
+    split
+    · rfl
+    · rw [if_pos (by simp only [fsize_cons] at *; omega)]
+      have : fsize (n :: n' :: rest) - (b + 1) - n.size = fsize (n' :: rest) - (b + 1) := by
+        simp only [fsize_cons]; omega
+      rw [this, h.1, ih]; rfl
+
+theorem rightOpenValid_concat (S : Schema) (b : Nat) (ty a m) (k : List Node) : ∀ init : List Node,
+    rightOpenValid S (b + 1) (init ++ [Node.elem ty a m k]) = true →
+    S.checkKids init = true ∧ canonicalMarks S m = true ∧ rightOpenValid S b k = true
+  | [], h => by
+    simp only [List.nil_append, rightOpenValid, Bool.and_eq_true] at h
+    exact ⟨by simp, h.1, h.2⟩
+  | [x], h => by
+    simp only [List.cons_append, List.nil_append, rightOpenValid, Bool.and_eq_true] at h
+    exact ⟨by simp [h.1], h.2.1, h.2.2⟩
+  | x :: y :: r, h => by
+    simp only [List.cons_append, rightOpenValid, Bool.and_eq_true] at h
+    have ih := rightOpenValid_concat S b ty a m k (y :: r) (by simpa using h.2)
+    exact ⟨by simp only [checkKids_cons, Bool.and_eq_true] at ih ⊢; exact ⟨h.1, ih.1⟩, ih.2⟩
+
+theorem openValid_zero_left (S : Schema) (b : Nat) (k : List Node) :
+    openValid S 0 b k = rightOpenValid S b k := by
+  simp [openValid]
+
+theorem openValid_zero_right (S : Schema) (a : Nat) (k : List Node) :
+    openValid S a 0 k = leftOpenValid S a k := by
+  cases a with
+  | zero => simp [openValid, rightOpenValid, leftOpenValid]
+  | succ a => simp [openValid]
+
+/-! ### three-way join -/
+
+theorem rightJoin_congr (S : Schema) {M M' : List Node} (b : Nat) (rs : RSplit)
+    (h : M.getLast? = M'.getLast?) : rightJoin S M b rs = rightJoin S M' b rs := by
+  unfold rightJoin; rw [h]
+
+/-- the pieces after the left part of a level: slice middle, right join node, rest of `R` -/
+theorem tailPieces_valid {S : Schema} {M : List Node} {b : Nat} {rs : RSplit} {rj : List Node}
+    (hM : rightOpenValid S b M = true) (hrs : rs.validK S = true)
+    (h : rightJoin S M b rs = .ok rj) :
+    S.checkKids ((if b ≠ 0 then M.dropLast else M) ++ rj ++ rs.rest) = true := by
+  unfold rightJoin at h
+  split at h
+  · split at h
+    · rename_i hb; subst hb
+      simp at h; subst h
+      simp only [rightOpenValid] at hM
+      simp [checkKids_append, hM, RSplit.rest_valid hrs]
+    · simp at h
+  · rename_i cR innerT rest
+    split at h
+    · simp at h
+    · rename_i hb
+      split at h
+      · rename_i tyE aE mE kidsE tyR aR mR kidsR hl
+        split at h
+        · split at h
+          · rename_i r hr
+            split at h
+            · rename_i c hc
+              simp at h; subst h
+              obtain ⟨init, hMi⟩ : ∃ init, M = init ++ [Node.elem tyE aE mE kidsE] := ⟨_, getLast?_decomp hl⟩
+              subst hMi
+              obtain ⟨b', rfl⟩ : ∃ b', b = b' + 1 := ⟨b - 1, by omega⟩
+              obtain ⟨hi, hm, hk⟩ := rightOpenValid_concat S b' tyE aE mE kidsE init hM
+              simp only [RSplit.validK, Bool.and_eq_true] at hrs
+              have hr' := twoWay_valid_gen S _ _ _ _ _ (rightOpenValid_prefix S b' kidsE hk) hrs.1
+                (by simpa using hr)
+              simp [checkKids_append, hi, close_valid hm hr' hc, RSplit.rest, hrs.2]
+            · simp at h
+          · simp at h
+        · simp at h
+      · simp at h
+
+theorem flatTail_valid {S : Schema} {M : List Node} {a b : Nat} {Rt : List Node} {t : Nat} {X : List Node}
+    (hM : openValid S a b M = true) (hR : suffixValid S Rt t = true) (h : flatTail S M a b Rt t = .ok X) :
+    S.checkKids X = true := by
+  unfold flatTail at h
+  split at h
+  · simp at h
+  · rename_i ha; simp at ha; subst ha
+    rw [openValid_zero_left] at hM
+    split at h
+    · simp at h
+    · rename_i rs hs
+      have hrs := splitRight_valid S _ _ _ hR hs
+      split at h
+      · rename_i rj hrj
+        simp at h; subst h
+        have := tailPieces_valid hM hrs hrj
+        have hmid : middle M false (b != 0) = if b ≠ 0 then M.dropLast else M := by
+          by_cases hb : b = 0 <;> simp [middle, hb]
+        rw [hmid]; simpa using this
+      · simp at h
+
+theorem threeWay_valid_gen (S : Schema) : ∀ (L : List Node) (f extra : Nat) (M : List Node) (a b : Nat)
+    (Rt : List Node) (t : Nat) (X : List Node),
+    S.checkKids L = true → suffixValid S Rt t = true → openValid S a b M = true →
+    threeWay S L f extra M a b Rt t = .ok X → S.checkKids X = true
+  | [], f, extra, M, a, b, Rt, t, X, hL, hR, hM, h => by
+    unfold threeWay at h
+    split at h
+    · split at h
+      · exact flatTail_valid hM hR h
+      · simp at h
+    · simp at h
+  | n :: ns, f, extra, M, a, b, Rt, t, X, hL, hR, hM, h => by
+    unfold threeWay at h
+    simp only [checkKids_cons, Bool.and_eq_true] at hL
+    split at h
+    · split at h
+      · exact flatTail_valid hM hR h
+      · simp at h
+    · rename_i hf
+      split at h
+      · split at h
+        · rename_i r hr
+          simp at h; subst h
+          simp [hL.1, threeWay_valid_gen S ns _ extra M a b Rt t r hL.2 hR hM hr]
+        · simp at h
+      · cases n with
+        | text s m =>
+          simp only at h
+          split at h
+          · simp at h
+          · split at h
+            · simp at h
+            · split at h
+              · rename_i r hr
+                simp at h; subst h
+                have h1 := hL.1
+                simp only [checkNode_text] at h1
+                simp [flatTail_valid hM hR hr, h1]
+              · simp at h
+        | leaf ty at_ m => simp at h
+        | elem tyL aL mL kidsL =>
+          have hnL := hL.1
+          simp only [checkNode_elem, Bool.and_eq_true] at hnL
+          have hkL := hnL.2
+          have hmL := hnL.1.2
+          simp only at h
+          split at h
+          · simp at h
+          · rename_i rs hs
+            have hrs := splitRight_valid S _ _ _ hR hs
+            split at h
+            · split at h
+              · rename_i tyR aR mR kidsR innerT rest
+                simp only [RSplit.validK, Bool.and_eq_true] at hrs
+                split at h
+                · split at h
+                  · rename_i inner hin
+                    split at h
+                    · rename_i c hc
+                      simp at h; subst h
+                      have ih := threeWay_valid_gen S kidsL (f - 1) (extra - 1) M a b kidsR innerT inner
+                        hkL hrs.1 hM hin
+                      simp [close_valid hmL ih hc, hrs.2]
+                    · simp at h
+                  · simp at h
+                · simp at h
+              · simp at h
+            · split at h
+              · simp at h
+              · rename_i ha0
+                split at h
+                · simp at h
+                · rename_i cS Mtail
+                  split at h
+                  · rename_i tyS aS mS kidsS
+                    split at h
+                    · simp at h
+                    · obtain ⟨a', rfl⟩ : ∃ a', a = a' + 1 := ⟨a - 1, by omega⟩
+                      split at h
+                      · rename_i tyR aR mR kidsR innerT rest b' x hx
+                        obtain ⟨rfl, rfl⟩ : Node.elem tyS aS mS kidsS = x ∧ Mtail = [] := by
+                          simpa using hx
+                        simp only [RSplit.validK, Bool.and_eq_true] at hrs
+                        simp only [openValid, Bool.and_eq_true] at hM
+                        split at h
+                        · simp at h
+                        · split at h
+                          · rename_i inner hin
+                            split at h
+                            · rename_i c hc
+                              simp at h; subst h
+                              have ih := threeWay_valid_gen S kidsL (f - 1) 0 kidsS a' b' kidsR innerT inner
+                                hkL hrs.1 hM.2 (by simpa using hin)
+                              simp [close_valid hmL ih hc, hrs.2]
+                            · simp at h
+                          · simp at h
+                      · rename_i rs b _ _ _ hnot
+                        split at h
+                        · simp at h
+                        · split at h
+                          · rename_i lr hlr
+                            split at h
+                            · rename_i cl hcl
+                              split at h
+                              · rename_i rj hrj
+                                simp at h; subst h
+                                have hne : b ≠ 0 → Mtail ≠ [] := by
+                                  intro hb0 hMt; subst hMt
+                                  rcases rightJoin_toks hs hrj with ⟨h0, _⟩ |
+                                    ⟨_, _, _, _, tyR, aR, mR, kidsR, innerT, rest, _, _, hrs', _⟩
+                                  · exact hb0 h0
+                                  · obtain ⟨b', rfl⟩ : ∃ b', b = b' + 1 := ⟨b - 1, by omega⟩
+                                    exact hnot tyR aR mR kidsR innerT rest b' _ hrs' rfl rfl
+                                -- decompose the slice's validity
+                                have hparts : canonicalMarks S mS = true ∧ leftOpenValid S a' kidsS = true ∧
+                                    rightOpenValid S b Mtail = true := by
+                                  cases b with
+                                  | zero =>
+                                    simp only [openValid, leftOpenValid, Bool.and_eq_true] at hM
+                                    exact ⟨hM.1.1, hM.1.2, by simpa [rightOpenValid] using hM.2⟩
+                                  | succ b' =>
+                                    cases Mtail with
+                                    | nil => exact absurd rfl (hne (by omega))
+                                    | cons y ys =>
+                                      simp only [openValid, Bool.and_eq_true] at hM
+                                      exact ⟨hM.1.1, hM.1.2, hM.2⟩
+                                have hlr' := twoWay_valid_gen S _ _ _ _ _ (prefixValid_of_check S kidsL _ hkL)
+                                  (leftOpenValid_suffix S a' kidsS hparts.2.1) (by simpa using hlr)
+                                have hrj' : rightJoin S Mtail b rs = .ok rj := by
+                                  by_cases hb0 : b = 0
+                                  · subst hb0
+                                    rw [← hrj]; unfold rightJoin
+                                    cases rs <;> simp
+                                  · rw [← hrj]
+                                    apply rightJoin_congr
+                                    cases Mtail with
+                                    | nil => exact absurd rfl (hne hb0)
+                                    | cons y ys => simp [List.getLast?_cons_cons]
+                                have htail := tailPieces_valid hparts.2.2 hrs hrj'
+                                have hmid : middle (Node.elem tyS aS mS kidsS :: Mtail) true (b != 0)
+                                    = if b ≠ 0 then Mtail.dropLast else Mtail := by
+                                  by_cases hb : b = 0 <;> simp [middle, hb]
+                                rw [hmid]
+                                simp only [checkKids_cons, close_valid hmL hlr' hcl, Bool.true_and]
+                                simpa using htail
+                              · simp at h
+                            · simp at h
+                          · simp at h
+                  · simp at h
 
 theorem threeWay_valid (S : Schema) (L : List Node) (f extra : Nat) (M : List Node) (a b : Nat)
     (Rt : List Node) (t : Nat) (X : List Node)
     (hL : S.checkKids L = true) (hR : S.checkKids Rt = true) (hM : openValid S a b M = true)
-    (h : threeWay S L f extra M a b Rt t = .ok X) : S.checkKids X = true := by
-  sorry
+    (h : threeWay S L f extra M a b Rt t = .ok X) : S.checkKids X = true :=
+  threeWay_valid_gen S L f extra M a b Rt t X hL (suffixValid_of_check S Rt t hR) hM h
+
+/-! ### `atLevel`, `outer`, `replace` -/
+
+theorem atLevel_valid {S : Schema} {sl : Slice} {ty : TypeId} {level : List Node} {f t extra : Nat}
+    {X : List Node} (hl : S.checkKids level = true)
+    (hs : openValid S sl.openStart sl.openEnd sl.content = true)
+    (h : atLevel S sl ty level f t extra = .ok X) :
+    S.checkKids X = true ∧ S.validContent ty X = true := by
+  unfold atLevel at h
+  simp only at h
+  split at h
+  · rename_i c hc
+    split at h
+    · rename_i hv
+      simp at h; subst h
+      refine ⟨?_, hv⟩
+      split at hc
+      · cases hx : twoWay S level f level t with
+        | error e => rw [hx] at hc; simp [Except.map] at hc
+        | ok r =>
+          rw [hx] at hc; simp [Except.map] at hc; subst hc
+          exact fromArray_checkKids S _ (twoWay_valid S _ _ _ _ _ hl hl hx)
+      · split at hc
+        · rename_i hcond
+          simp only [Bool.and_eq_true, decide_eq_true_eq] at hcond
+          obtain ⟨⟨⟨ha, hb⟩, hdf⟩, hdt⟩ := hcond
+          rw [ha, hb] at hs
+          simp only [openValid, rightOpenValid] at hs
+          split at hc
+          · rename_i l r hl' hr'
+            simp at hc; subst hc
+            exact fappend_checkKids S _ _
+              (fappend_checkKids S _ _ (fcut_checkKids_flat S _ _ _ _ hl (depthAt_zero _) hdf hl') hs)
+              (fcut_checkKids_flat S _ _ _ _ hl hdt (depthAt_fsize _) hr')
+          · simp at hc
+          · simp at hc
+        · cases hx : threeWay S level f extra sl.content sl.openStart sl.openEnd level t with
+          | error e => rw [hx] at hc; simp [Except.map] at hc
+          | ok r =>
+            rw [hx] at hc; simp [Except.map] at hc; subst hc
+            exact fromArray_checkKids S _ (threeWay_valid S _ _ _ _ _ _ _ _ _ hl hl hs hx)
+    · simp at h
+  · simp at h
+
+theorem outer_valid (S : Schema) (sl : Slice)
+    (hs : openValid S sl.openStart sl.openEnd sl.content = true) :
+    ∀ (rest : List Node) (ty : TypeId) (level : List Node) (f0 t0 idx f t extra : Nat)
+      (pre X : List Node),
+      level = pre ++ rest → idx = pre.length → S.checkKids level = true →
+      S.validContent ty level = true →
+      outer S sl ty level f0 t0 idx rest f t extra = .ok X →
+      S.checkKids X = true ∧ S.validContent ty X = true
+  | [], ty, level, f0, t0, idx, f, t, extra, pre, X, hl, hi, hk, hv, h => by
+    unfold outer at h
+    exact atLevel_valid hk hs h
+  | n :: ns, ty, level, f0, t0, idx, f, t, extra, pre, X, hl, hi, hk, hv, h => by
+    unfold outer at h
+    split at h
+    · exact atLevel_valid hk hs h
+    · split at h
+      · refine outer_valid S sl hs ns ty level f0 t0 (idx + 1) (f - n.size) (t - n.size) extra
+          (pre ++ [n]) X ?_ ?_ hk hv h
+        · simp [hl]
+        · simp [hi]
+      · split at h
+        · rename_i tyC aC mC kidsC _
+          split at h
+          · split at h
+            · rename_i inner hin
+              simp at h; subst h
+              subst hl; subst hi
+              have hk' := hk
+              simp only [checkKids_append, checkKids_cons, checkNode_elem, Bool.and_eq_true] at hk'
+              have ih := outer_valid S sl hs kidsC tyC kidsC (f - 1) (t - 1) 0 (f - 1) (t - 1) (extra - 1)
+                [] inner rfl rfl hk'.2.1.2 hk'.2.1.1.1 hin
+              rw [set_mid]
+              constructor
+              · simp only [checkKids_append, checkKids_cons, checkNode_elem, Bool.and_eq_true]
+                exact ⟨hk'.1, ⟨⟨ih.2, hk'.2.1.1.2⟩, ih.1⟩, hk'.2.2⟩
+              · rw [← hv]
+                apply validContent_congr
+                simp [Schema.tyOf, Node.tyOr, Node.marks]
+            · simp at h
+          · exact atLevel_valid hk hs h
+        · exact atLevel_valid hk hs h
 
 /-- **replace returns valid children**: all children valid, and the parent's own content
     constraint still holds (validated by `close` at the level rebuilt, unchanged types/marks above). -/
@@ -81,15 +793,27 @@ theorem replaceKids_valid (S : Schema) (ty : TypeId) (kids : List Node) (f t : N
     (hs : openValid S sl.openStart sl.openEnd sl.content = true)
     (h : replaceKids S ty kids f t sl = .ok kids') :
     S.checkKids kids' = true ∧ S.validContent ty kids' = true := by
-  sorry
+  obtain ⟨_, _, _, ho⟩ := replaceKids_ok h
+  exact outer_valid S sl hs kids ty kids f t 0 f t _ [] kids' rfl rfl hk hv ho
 
 /-- **`Node.replace` on a valid document returns a valid document** -/
 theorem replace_valid (S : Schema) (doc doc' : Node) (f t : Nat) (sl : Slice)
     (hd : S.checkNode doc = true)
     (hs : openValid S sl.openStart sl.openEnd sl.content = true)
     (h : S.replace doc f t sl = .ok doc') : S.checkNode doc' = true := by
-  sorry
+  unfold Schema.replace at h
+  split at h
+  · rename_i ty a m kids
+    simp only [checkNode_elem, Bool.and_eq_true] at hd
+    cases hx : replaceKids S ty kids f t sl with
+    | error e => rw [hx] at h; simp [Except.map] at h
+    | ok kids' =>
+      rw [hx] at h; simp [Except.map] at h; subst h
+      have := replaceKids_valid S ty kids f t sl kids' hd.2 hd.1.1 hs hx
+      simp [checkNode_elem, this.1, this.2, hd.1.2]
+  · simp at h
 
+set_option linter.unusedVariables false in
 /-- `insert_into` below the top level validates the receiving node: the child list it returns for a
     node of type `p` is valid content for `p` when insertion happened directly in that node. -/
 theorem flatInsert_valid (S : Schema) (ins level c : List Node) (p : TypeId) (d idx : Nat)
@@ -98,6 +822,270 @@ theorem flatInsert_valid (S : Schema) (ins level c : List Node) (p : TypeId) (d 
     (hl : S.checkKids level = true) (hi : S.checkKids ins = true)
     (h : flatInsert S ins (some p) level d idx = .ok (some c)) :
     S.checkKids c = true := by
-  sorry
+  unfold flatInsert at h
+  simp only at h
+  split at h
+  · simp at h
+  · split at h
+    · rename_i l r hl' hr'
+      simp at h; subst h
+      exact fappend_checkKids S _ _
+        (fappend_checkKids S _ _ (fcut_checkKids_flat S _ _ _ _ hl (depthAt_zero _) hd hl') hi)
+        (fcut_checkKids_flat S _ _ _ _ hl hd (depthAt_fsize _) hr')
+    · simp at h
+    · simp at h
+  · simp at h
+
+/-! ### a slice cut from a valid document -/
+
+theorem rightOpenValid_cons {S : Schema} {n : Node} {b : Nat} {rest : List Node}
+    (hn : S.checkNode n = true) (hr : rightOpenValid S b rest = true) :
+    rightOpenValid S b (n :: rest) = true := by
+  cases b with
+  | zero => simp only [rightOpenValid] at hr ⊢; simp [hn, hr]
+  | succ b =>
+    cases rest with
+    | nil => simp [rightOpenValid] at hr
+    | cons y ys => simp only [rightOpenValid, hn, hr]; rfl
+
+theorem openValid_cons_elem {S : Schema} {ty at_ m} {k rest : List Node} {a b : Nat}
+    (hm : canonicalMarks S m = true) (hk : leftOpenValid S a k = true)
+    (hr : rightOpenValid S b rest = true) :
+    openValid S (a + 1) b (Node.elem ty at_ m k :: rest) = true := by
+  cases b with
+  | zero =>
+    simp only [rightOpenValid] at hr
+    simp [openValid, leftOpenValid, hm, hk, hr]
+  | succ b =>
+    cases rest with
+    | nil => simp [rightOpenValid] at hr
+    | cons y ys => simp only [openValid, hm, hk, hr]; rfl
+
+theorem openValid_single_elem {S : Schema} {ty at_ m} {k : List Node} {a b : Nat}
+    (hm : canonicalMarks S m = true) (hk : openValid S a b k = true) :
+    openValid S (a + 1) (b + 1) [Node.elem ty at_ m k] = true := by
+  simp only [openValid, hm, hk]; rfl
+
+def CutValidSpec (S : Schema) (kids : List Node) : Prop :=
+  ∀ (f t : Nat) (c : List Node), (f < t ∨ (f = 0 ∧ t = 0)) → t ≤ fsize kids →
+    fcutLoop kids f t = .ok c → openValid S (depthAt kids f) (depthAt kids t) c = true
+
+theorem cutElem_valid (S : Schema) (ty : TypeId) (a : Attrs) (m : Marks) (kids : List Node)
+    (IH : CutValidSpec S kids) (hk : S.checkKids kids = true)
+    (f2 t2 : Nat) (c : Node) (hle : f2 ≤ t2) (ht2 : t2 ≤ fsize kids)
+    (hdeg : f2 = t2 → f2 = 0 ∨ f2 = fsize kids)
+    (h : Node.cut (.elem ty a m kids) f2 t2 = .ok c) :
+    ∃ k', c = .elem ty a m k' ∧ openValid S (depthAt kids f2) (depthAt kids t2) k' = true := by
+  rw [Node.cut] at h
+  split at h
+  · rename_i h1
+    simp at h1 h
+    obtain ⟨rfl, rfl⟩ := h1
+    subst h
+    exact ⟨kids, rfl, by simp [depthAt_fsize, openValid, rightOpenValid, hk]⟩
+  · split at h
+    · simp at h; subst h
+      have : f2 = t2 := by omega
+      subst this
+      rcases hdeg rfl with rfl | rfl
+      · exact ⟨[], rfl, by simp [openValid, rightOpenValid]⟩
+      · exact ⟨[], rfl, by simp [depthAt_fsize, openValid, rightOpenValid]⟩
+    · cases hc : fcutLoop kids f2 t2 with
+      | error e => simp [hc, Except.map] at h
+      | ok c' =>
+        simp [hc, Except.map] at h
+        subst h
+        exact ⟨c', rfl, IH f2 t2 c' (by omega) ht2 hc⟩
+
+theorem fcutLoop_openValid (S : Schema) : ∀ kids : List Node, S.checkKids kids = true → CutValidSpec S kids
+  | [], _, f, t, c, hft, ht, h => by
+    have : t = 0 := by simpa using ht
+    subst this
+    rw [fcutLoop_zero] at h; simp at h; subst h
+    simp [depthAt, openValid, rightOpenValid]
+  | n :: ns, hk, f, t, c, hft, ht, h => by
+    simp only [checkKids_cons, Bool.and_eq_true] at hk
+    have IHns := fcutLoop_openValid S ns hk.2
+    by_cases ht0 : t = 0
+    · subst ht0
+      have : f = 0 := by omega
+      subst this
+      rw [fcutLoop_zero] at h; simp at h; subst h
+      simp [openValid, rightOpenValid]
+    have hft : f < t := by omega
+    rw [fcutLoop] at h
+    simp only [if_neg ht0] at h
+    simp only [fsize_cons] at ht
+    obtain ⟨sz, hsz⟩ : ∃ sz, sz = n.size := ⟨_, rfl⟩
+    rw [← hsz] at h
+    split at h
+    · rename_i hfsz
+      have h0 : f - sz = 0 := by omega
+      rw [h0] at h
+      -- the part after the head node
+      have tailV : ∀ rest, fcutLoop ns 0 (t - sz) = .ok rest →
+          rightOpenValid S (depthAt ns (t - sz)) rest = true := by
+        intro rest hr
+        by_cases hz : t - sz = 0
+        · rw [hz, fcutLoop_zero] at hr; simp at hr; subst hr
+          rw [hz]; simp [rightOpenValid]
+        · have := IHns 0 (t - sz) rest (by omega) (by omega) hr
+          simpa [openValid] using this
+      have tailNil : ∀ rest, fcutLoop ns 0 (t - sz) = .ok rest → t < sz → rest = [] := by
+        intro rest hr hlt
+        have : t - sz = 0 := by omega
+        rw [this, fcutLoop_zero] at hr
+        simp at hr; exact hr
+      -- depth at `t` when the head is not an element
+      have dT_flat : (∀ ty a m k, n ≠ .elem ty a m k) → depthAt (n :: ns) t = depthAt ns (t - sz) := by
+        intro hne
+        by_cases hle : sz ≤ t
+        · rw [depthAt_skip n ns t (by omega), ← hsz]
+        · rw [depthAt_nonelem_cons n ns t (by omega) hne]
+          have : t - sz = 0 := by omega
+          rw [this]; simp
+      split at h
+      · rename_i hcut
+        cases n with
+        | text s m =>
+          simp only at h
+          cases hct : cutText s f (min s.length t) with
+          | error e => simp [hct] at h
+          | ok s' =>
+            cases hr : fcutLoop ns 0 (t - sz) with
+            | error e => simp [hct, hr] at h
+            | ok rest =>
+              simp [hct, hr] at h
+              subst h
+              rw [depthAt_nonelem_cons _ ns f (by omega) (by simp), dT_flat (by simp), openValid_zero_left]
+              exact rightOpenValid_cons (by simpa using hk.1) (tailV rest hr)
+        | leaf ty a m =>
+          simp only at h
+          cases hr : fcutLoop ns 0 (t - sz) with
+          | error e => simp [hr] at h
+          | ok rest =>
+            simp [hr] at h
+            subst h
+            rw [depthAt_nonelem_cons _ ns f (by omega) (by simp), dT_flat (by simp), openValid_zero_left]
+            exact rightOpenValid_cons hk.1 (tailV rest hr)
+        | elem ty a m kids =>
+          simp only at h
+          have hnk := hk.1
+          simp only [checkNode_elem, Bool.and_eq_true] at hnk
+          cases hct : Node.cut (.elem ty a m kids) (f - 1) (min (fsize kids) (t - 1)) with
+          | error e => simp [hct] at h
+          | ok hd =>
+            cases hr : fcutLoop ns 0 (t - sz) with
+            | error e => simp [hct, hr] at h
+            | ok rest =>
+              simp [hct, hr] at h
+              subst h
+              simp at hsz
+              obtain ⟨k', rfl, hv⟩ := cutElem_valid S ty a m kids (fcutLoop_openValid S kids hnk.2) hnk.2
+                _ _ hd (by omega) (by omega) (by omega) hct
+              by_cases hle : sz ≤ t
+              · -- `t` beyond the head: the head is left-open only
+                have hf0 : 0 < f := by
+                  simp at hcut; omega
+                have hm : min (fsize kids) (t - 1) = fsize kids := by omega
+                rw [hm, depthAt_fsize, openValid_zero_right] at hv
+                rw [depthAt_elem_cons _ _ _ _ _ _ hf0 (by omega), depthAt_skip _ ns t (by simp; omega),
+                  Nat.add_comm 1]
+                have := tailV rest hr
+                rw [hsz] at this
+                exact openValid_cons_elem hnk.1.2 hv this
+              · have := tailNil rest hr (by omega)
+                subst this
+                have hm : min (fsize kids) (t - 1) = t - 1 := by omega
+                rw [hm] at hv
+                rw [depthAt_elem_cons _ _ _ _ ns t (by omega) (by omega), Nat.add_comm 1]
+                by_cases hf0 : f = 0
+                · subst hf0
+                  simp only [Nat.zero_sub, depthAt_zero, openValid_zero_left] at hv ⊢
+                  simp only [rightOpenValid, hnk.1.2, hv]; rfl
+                · rw [depthAt_elem_cons _ _ _ _ _ _ (by omega) (by omega), Nat.add_comm 1]
+                  exact openValid_single_elem hnk.1.2 hv
+      · rename_i hcut
+        simp at hcut
+        cases hr : fcutLoop ns 0 (t - sz) with
+        | error e => simp [hr] at h
+        | ok rest =>
+          simp [hr] at h
+          subst h
+          have hf0 : f = 0 := by omega
+          subst hf0
+          rw [depthAt_zero, depthAt_skip n ns t (by omega), openValid_zero_left, ← hsz]
+          exact rightOpenValid_cons hk.1 (tailV rest hr)
+    · rename_i hfsz
+      have := IHns (f - sz) (t - sz) c (by omega) (by omega) h
+      rw [depthAt_skip n ns f (by omega), depthAt_skip n ns t (by omega), ← hsz]
+      exact this
+
+theorem fcut_openValid (S : Schema) (kids c : List Node) (f t : Nat) (hk : S.checkKids kids = true)
+    (hft : f < t) (ht : t ≤ fsize kids) (h : fcut kids f t = .ok c) :
+    openValid S (depthAt kids f) (depthAt kids t) c = true := by
+  unfold fcut at h
+  split at h
+  · rename_i h1
+    simp at h1 h
+    obtain ⟨rfl, rfl⟩ := h1
+    subst h
+    simp [depthAt_fsize, openValid, rightOpenValid, hk]
+  · rw [if_neg (by omega)] at h
+    exact fcutLoop_openValid S kids hk f t c (Or.inl hft) ht h
+
+theorem sliceHere_openValid (S : Schema) (level : List Node) (f t : Nat) (s : Slice)
+    (hk : S.checkKids level = true) (hft : f < t) (ht : t ≤ fsize level)
+    (h : sliceHere level f t = .ok s) : openValid S s.openStart s.openEnd s.content = true := by
+  unfold sliceHere at h
+  split at h
+  · rename_i c hc
+    simp at h; subst h
+    exact fcut_openValid S level c f t hk hft ht hc
+  · simp at h
+
+theorem sliceScan_openValid (S : Schema) : ∀ (rest level : List Node) (f0 t0 f t : Nat) (s : Slice),
+    S.checkKids level = true → S.checkKids rest = true → f0 < t0 → t0 ≤ fsize level → f < t →
+    sliceScan level f0 t0 rest f t = .ok s → openValid S s.openStart s.openEnd s.content = true
+  | [], level, f0, t0, f, t, s, hl, hr, hft0, ht0, hft, h => by
+    unfold sliceScan at h
+    exact sliceHere_openValid S level f0 t0 s hl hft0 ht0 h
+  | n :: ns, level, f0, t0, f, t, s, hl, hr, hft0, ht0, hft, h => by
+    simp only [checkKids_cons, Bool.and_eq_true] at hr
+    rw [sliceScan_cons] at h
+    split at h
+    · exact sliceHere_openValid S level f0 t0 s hl hft0 ht0 h
+    · rename_i hf0
+      split at h
+      · exact sliceScan_openValid S ns level f0 t0 _ _ s hl hr.2 hft0 ht0 (by omega) h
+      · cases n with
+        | text s' m => exact sliceHere_openValid S level f0 t0 s hl hft0 ht0 h
+        | leaf ty a m => exact sliceHere_openValid S level f0 t0 s hl hft0 ht0 h
+        | elem ty a m kids =>
+          simp only at h
+          have hnk := hr.1
+          simp only [checkNode_elem, Bool.and_eq_true] at hnk
+          split at h
+          · rename_i htsz
+            simp only [Node.size_elem] at htsz
+            exact sliceScan_openValid S kids kids (f - 1) (t - 1) (f - 1) (t - 1) s hnk.2 hnk.2
+              (by omega) (by omega) (by omega) h
+          · exact sliceHere_openValid S level f0 t0 s hl hft0 ht0 h
+
+/-- **a slice cut from a valid document is a valid payload** -/
+theorem sliceKids_openValid (S : Schema) (kids : List Node) (f t : Nat) (s : Slice)
+    (hk : S.checkKids kids = true) (h : sliceKids kids f t = .ok s) :
+    openValid S s.openStart s.openEnd s.content = true := by
+  unfold sliceKids at h
+  split at h
+  · simp at h; subst h
+    simp [Slice.empty, openValid, rightOpenValid]
+  · rename_i hne
+    split at h
+    · simp at h
+    · rename_i hg
+      simp only [inRange, Bool.or_eq_true, Bool.not_eq_true', decide_eq_false_iff_not,
+        decide_eq_true_eq, not_or, Nat.not_lt, Decidable.not_not] at hg
+      exact sliceScan_openValid S kids kids f t f t s hk hk (by omega) hg.1.2 (by omega) h
 
 end PM
